@@ -50,7 +50,11 @@ def run(cx):
 
     cx.guard(_resolve_table, cx, resolve, d_init)
     cx.guard(_first_wins, cx, repo, c_init, add)
-    cx.guard(_pending, cx, add)
+    from sa.inline import inlined as _inlined
+    add_i, _u = _inlined(repo.modules[REL], add, nested=True, tests=True)
+    if _u:
+        cx.note(f"R14d: add_new_items analysed with {_u} expanded in place")
+    cx.guard(_pending, cx, add_i)
     cx.guard(_cache_and_sync, cx, repo, add)
     cx.guard(_lookup, cx, get_color, conf)
     cx.guard(_grammar, cx, descr, parse, parse_mod, repo)
@@ -256,7 +260,7 @@ def _pending(cx, add):
 def cache_rules(cx, repo, add, rule_b="R14e", rule_d="R14e"):
     from sa.inline import inlined
     add_orig = add
-    add, _inl = inlined(repo.mod(REL), add)
+    add, _inl = inlined(repo.mod(REL), add, nested=True, tests=True)
     # reset of _cache dominated store loop
     store_loop = next((l for l in add.body if isinstance(l, ast.For) and any(isinstance(n, ast.Subscript) and isinstance(n.ctx, ast.Store) and norm(n.value) == "self.syntax_map" for n in ast.walk(l))), None)
     cx.need(store_loop is not None, rule_b, add, "loop storing new items")
